@@ -596,6 +596,10 @@ def run(ctx):
 
         # R6: depth accounting gives back exactly what was charged
         check_depth_accounting(ctx, prog, tag)
+        from .pairs import check_closers, C as _C
+        check_closers(ctx, prog, tag, "C11.R8.depth-is-decremented-only-after-a-successful-charge", only=(_C + "decr_depth",),
+                      why=": the unsigned depth underflows and (without overflow checks) wraps, after which the limit "
+                          "never trips")
         if prog.has_fn("minijinja::vm::Executor::call_block"):
             ctx.floor("C11.R7 conditional charges keyed on the current block" + tag, check_conditional_charges(ctx, prog, tag), 1)
 
